@@ -299,6 +299,17 @@ func main() {
 	roundTrip(s, &lorawan.NewChannelReqPayload{ChIndex: 3, Freq: 2400000100, MaxDR: 5, MinDR: 0}, macfmt.KindIndex("KNewChannelReq")) // C07-1 (fixed)
 	roundTrip(s, &lorawan.DeviceTimeAnsPayload{TimeSinceGPSEpoch: -1000000000}, macfmt.KindIndex("KDeviceTimeAns"))                   // C07-3 (fixed)
 	roundTrip(s, &lorawan.TXParamSetupReqPayload{UplinkDwellTime: 2, MaxEIRP: 3}, macfmt.KindIndex("KTXParamSetupReq"))               // C07-4 (fixed)
+	// frequency fields: every residue class that matters for the 100 Hz / 200 Hz stepping around bases of every range
+	for _, base := range []uint32{0, 868100000, 1199999900, 1200000000, 1677721400, 2399999800, 2400000000, 2422000000, 2483400000, 3355443000, 3355443200, 4294967000} {
+		for _, d := range []uint32{0, 1, 2, 50, 99, 100, 101, 150, 199, 200, 201} {
+			f := base + d
+			roundTrip(s, &lorawan.NewChannelReqPayload{ChIndex: uint8(d), Freq: f, MaxDR: 5, MinDR: 1}, macfmt.KindIndex("KNewChannelReq"))
+			roundTrip(s, &lorawan.DLChannelReqPayload{ChIndex: uint8(d), Freq: f}, macfmt.KindIndex("KDLChannelReq"))
+			roundTrip(s, &lorawan.BeaconFreqReqPayload{Frequency: f}, macfmt.KindIndex("KBeaconFreqReq"))
+			roundTrip(s, &lorawan.PingSlotChannelReqPayload{Frequency: f, DR: 3}, macfmt.KindIndex("KPingSlotChannelReq"))
+			roundTrip(s, &lorawan.RXParamSetupReqPayload{Frequency: f, DLSettings: lorawan.DLSettings{RX2DataRate: 2, RX1DROffset: 1}}, macfmt.KindIndex("KRXParamSetupReq"))
+		}
+	}
 	for ki := range macfmt.Kinds {
 		for i := 0; i < nRT; i++ {
 			roundTrip(s, macfmt.Random(r, ki, true), ki)
